@@ -53,14 +53,33 @@ def outline_model(levels):
     return out
 
 
-def build_doc(levels, kinds, outline, toc_pos):
+def place(header, where, i):
+    """The heading directly in the body, or inside a section / list item / table cell / nested section."""
+    if where == "body" or i % 2 == 0 and where != "all":
+        return header
+    if where in ("section", "all") and i % 4 == 1 or where == "section":
+        sec = Element.from_tag(f'<text:section text:name="S{i}"/>')
+        sec.append(header)
+        return sec
+    if where == "list" or where == "all" and i % 4 == 3:
+        lst = Element.from_tag("<text:list><text:list-item/></text:list>")
+        lst.children[0].append(header)
+        return lst
+    if where == "cell":
+        t = Element.from_tag(f'<table:table table:name="T{i}"><table:table-column/><table:table-row><table:table-cell/></table:table-row></table:table>')
+        t.get_element("descendant::table:table-cell").append(header)
+        return t
+    return header
+
+
+def build_doc(levels, kinds, outline, toc_pos, where="body"):
     doc = Document("text")
     body = doc.body
     body.clear()
     toc = TOC(outline_level=outline)
     items = []
     for i, (lv, kd) in enumerate(zip(levels, kinds)):
-        items.append(make_header(lv, kd, i))
+        items.append(place(make_header(lv, kd, i), where, i))
         items.append(Paragraph(f"para {i}"))
     pos = {"first": 0, "middle": (len(items) // 2) // 2 * 2, "last": len(items)}[toc_pos]
     items.insert(pos, toc)
@@ -146,15 +165,16 @@ def check_fill(doc, levels, outline, cls, detail, fails, step):
 
 
 def work(task):
-    levels, kinds, outline, toc_pos, hist = task
+    levels, kinds, outline, toc_pos, hist = task[:5]
+    where = task[5] if len(task) > 5 else "body"
     fails = []
     nev = 0
     skipped = any(v is None for v in outline_model([lv for lv in levels if lv <= (outline or 10)]))
     kindcls = "+".join(sorted(set(kinds))) if kinds else "none"
-    cls = ("skipped-levels" if skipped else "contiguous") + f",texts={kindcls}"
-    detail = {"levels": list(levels), "kinds": list(kinds), "outline": outline, "toc_pos": toc_pos, "hist": hist}
+    cls = ("skipped-levels" if skipped else "contiguous") + f",texts={kindcls}" + ("" if where == "body" else f",headings-in-{where}")
+    detail = {"levels": list(levels), "kinds": list(kinds), "outline": outline, "toc_pos": toc_pos, "hist": hist, "where": where}
     try:
-        doc = build_doc(levels, kinds, outline, toc_pos)
+        doc = build_doc(levels, kinds, outline, toc_pos, where)
         toc = doc.body.get_toc()
         toc.fill()
         nev += 1
@@ -183,7 +203,7 @@ def work(task):
             nev += 1
             new_levels = [int(h.level) for h in body.get_headers()]
             skipped2 = any(v is None for v in outline_model([lv for lv in new_levels if lv <= (outline or 10)]))
-            cls2 = ("skipped-levels" if skipped2 else "contiguous") + f",texts={kindcls},after-{hist}"
+            cls2 = ("skipped-levels" if skipped2 else "contiguous") + f",texts={kindcls},after-{hist}" + ("" if where == "body" else f",headings-in-{where}")
             check_fill(doc, new_levels, outline, cls2, detail, fails, f"fill,{hist},fill")
     except Exception as e:
         import traceback
@@ -219,6 +239,12 @@ def tasks_for(tier):
                     for kd in ("plain", "ws", "span", "note", "lb"):
                         for hist in (None, "edit-text", "edit-level", "delete", "insert"):
                             out.append((levels, tuple(kd for _ in range(n)), outline, pos, hist))
+    # headings inside sections, list items, table cells (every level sequence <= 3, two outline levels)
+    for n in range(1, 4):
+        for levels in itertools.product(LV[:3], repeat=n):
+            for where in ("section", "list", "cell", "all"):
+                for outline in (0, 2):
+                    out.append((levels, tuple("plain" for _ in range(n)), outline, "first", None if n < 3 else "insert", where))
     return list(dict.fromkeys(out))
 
 
@@ -252,7 +278,7 @@ def run(prop, tier, vseed):
 
 
 def replay(rp):
-    t = (tuple(rp["levels"]), tuple(rp["kinds"]), rp["outline"], rp["toc_pos"], rp["hist"])
+    t = (tuple(rp["levels"]), tuple(rp["kinds"]), rp["outline"], rp["toc_pos"], rp["hist"], rp.get("where", "body"))
     n, f, _ = work(t)
     for h in f[:3]:
         print("FAIL", h["signature"], h["replay"]["expected"], h["replay"]["actual"])
